@@ -2,7 +2,7 @@
    tuples, arithmetic, constants are all preserved). *)
 From Coq Require Import List String Bool Arith PeanoNat Lia Permutation Sorted.
 From PAFC01 Require Import ModelTree Sorting.
-From PAFC01 Require Proofs Proofs2.
+From PAFC01 Require Proofs Proofs2 Proofs8.
 From PAFC12 Require Import Gen Model Lib Proofs.
 Import ListNotations.
 Local Open Scope string_scope.
@@ -11,13 +11,14 @@ Local Open Scope list_scope.
 Section I.
   Variable V : Type.
   Variable bin : binop -> V -> V -> V.
+  Variable un : unop -> V -> V.
   Notation node := (node V).
   Notation ival := (ival V).
   Notation node_ind' := (PAFC01.Proofs.node_ind' V).
   Variable sigma : nat -> option nat.
 
   Definition mval (args : nat -> option V) (m : string * (nat * node)) : nat * ival :=
-    (fst (snd m), inst V bin args (snd (snd m))).
+    (fst (snd m), inst V bin un args (snd (snd m))).
 
   Definition is_prior_m (m : string * (nat * node)) : bool := is_prior V (snd (snd m)).
   Definition is_const_m (m : string * (nat * node)) : bool := is_const V (snd (snd m)).
@@ -27,7 +28,7 @@ Section I.
     Permutation (filter is_prior_m ms ++ filter is_const_m ms) ms.
   Proof.
     induction 1 as [|[k [i c]] ms Hc Hms IH]; [constructor|].
-    destruct c as [p|v|?|? ? ? ? ?|? ? ?|?]; simpl in Hc; try discriminate; unfold is_prior_m, is_const_m in *; simpl.
+    destruct c as [p|v|?|? ? ? ? ?|? ? ?|? ? ?|?]; simpl in Hc; try discriminate; unfold is_prior_m, is_const_m in *; simpl.
     - constructor. exact IH.
     - eapply Permutation_trans; [apply Permutation_sym; apply Permutation_middle|]. constructor. exact IH.
   Qed.
@@ -42,7 +43,7 @@ Section I.
     - inversion E; subst. reflexivity.
     - assert (A' : forall q, In q (map snd (walk_members V ms)) -> args' (sd sigma q) = args q).
       { intros q Hq. apply A. unfold walk_members in *. simpl. rewrite map_app. apply in_or_app. right. exact Hq. }
-      destruct c as [p|v|?|? ? ? ? ?|? ? ?|?]; simpl in Hc; try discriminate; unfold is_prior_m in *; simpl.
+      destruct c as [p|v|?|? ? ? ? ?|? ? ?|? ? ?|?]; simpl in Hc; try discriminate; unfold is_prior_m in *; simpl.
       + destruct (sigma p) as [p'|] eqn:Ep; [|discriminate].
         destruct (tuple_priors V sigma ms) as [r|] eqn:Er; [|discriminate].
         inversion E; subst. simpl. rewrite (IH A' r eq_refl). f_equal.
@@ -63,7 +64,7 @@ Section I.
   Lemma inst_tuple_eq (args args' : nat -> option V) (ms ms' : list (string * (nat * node))) :
     NoDup (map (member_pos V) ms) ->
     Permutation (map (mval args') ms') (map (mval args) ms) ->
-    inst V bin args' (NTuple ms') = inst V bin args (NTuple ms).
+    inst V bin un args' (NTuple ms') = inst V bin un args (NTuple ms).
   Proof.
     intros ND P. rewrite !PAFC01.Proofs2.inst_tuple. f_equal. f_equal.
     unfold PAFC01.Proofs2.member_vals. symmetry.
@@ -73,12 +74,25 @@ Section I.
     - rewrite map_map. exact ND.
   Qed.
 
+  (* the rebuild keeps the kind of a node; in particular constants stay constants and nothing becomes one *)
+  Lemma rebuild_is_const (n n' : node) : rebuild V sigma n = Some n' -> is_const V n' = is_const V n.
+  Proof.
+    destruct n; cbn [rebuild]; intro E.
+    - destruct (sigma pid); inversion E; reflexivity.
+    - inversion E; reflexivity.
+    - destruct (tuple_priors V sigma members); inversion E; reflexivity.
+    - destruct (rebuild V sigma n1); [|discriminate]. destruct (rebuild V sigma n2); inversion E; reflexivity.
+    - destruct (rebuild V sigma n); inversion E; reflexivity.
+    - match type of E with option_map _ ?X = _ => destruct X end; inversion E; reflexivity.
+    - match type of E with option_map _ ?X = _ => destruct X end; inversion E; reflexivity.
+  Qed.
+
   Lemma rebuild_inst (args args' : nat -> option V) : forall n, wf V n ->
     forall n', rebuild V sigma n = Some n' ->
     (forall q, In q (prior_ids V n) -> args' (sd sigma q) = args q) ->
-    inst V bin args' n' = inst V bin args n.
+    inst V bin un args' n' = inst V bin un args n.
   Proof.
-    induction n as [p|v|ms _|o ln rn l r IHl IHr|cls ctor attrs IH|attrs IH] using node_ind'; intros W n' E A.
+    induction n as [p|v|ms _|o ln rn l r IHl IHr|uo unm uc IHc|cls ctor attrs IH|attrs IH] using node_ind'; intros W n' E A.
     - simpl in E. destruct (sigma p) as [p'|] eqn:Ep; [|discriminate]. inversion E; subst.
       cbn [inst]. rewrite <- (A p) by (left; reflexivity). unfold sd. rewrite Ep. reflexivity.
     - inversion E; subst. reflexivity.
@@ -99,11 +113,19 @@ Section I.
       rewrite (IHl Wl _ eq_refl) by (intros q Hq; apply A; apply (prior_ids_bin V _ _ _ _ _ q W'); left; exact Hq).
       rewrite (IHr Wr _ eq_refl) by (intros q Hq; apply A; apply (prior_ids_bin V _ _ _ _ _ q W'); right; exact Hq).
       reflexivity.
+    - cbn [rebuild] in E. destruct (rebuild V sigma uc) as [c'|] eqn:Ec; [|discriminate]. inversion E; subst.
+      assert (Hi : inst V bin un args' c' = inst V bin un args uc).
+      { apply (IHc W _ eq_refl). intros q Hq. apply A. rewrite prior_ids_un. exact Hq. }
+      assert (Hk := rebuild_is_const uc c' Ec).
+      destruct (is_const V uc) eqn:K.
+      + destruct uc; try discriminate K. destruct c'; try discriminate Hk. reflexivity.
+      + rewrite (PAFC01.Proofs8.inst_un V bin un args' uo unm c' Hk), (PAFC01.Proofs8.inst_un V bin un args uo unm uc K), Hi.
+        reflexivity.
     - rewrite rebuild_model in E. destruct (rebuild_attrs V sigma attrs) as [a'|] eqn:Ea; [|discriminate].
       inversion E; subst. apply wf_model in W.
       unfold prior_ids in A. rewrite walk_model in A.
       cbn [inst]. rewrite !PAFC01.Proofs.inst_attrs_map.
-      assert (X : map (fun kv => (fst kv, inst V bin args' (snd kv))) a' = map (fun kv => (fst kv, inst V bin args (snd kv))) attrs).
+      assert (X : map (fun kv => (fst kv, inst V bin un args' (snd kv))) a' = map (fun kv => (fst kv, inst V bin un args (snd kv))) attrs).
       { clear E. revert a' Ea. induction attrs as [|[k c] a IHa]; intros a' Ea; simpl in Ea.
         - inversion Ea; subst. reflexivity.
         - inversion IH as [|? ? IHc IHrest]; subst. inversion W as [|? ? Wc Wrest]; subst.
